@@ -15,6 +15,11 @@
 // bailiwick too wide after a jump to a cached delegation >= 2 labels deep) is
 // present: three narrow `known` signatures …/deep-cached-jump/sibling-b[-new];
 // every other signature fails.
+// Ladders (ladders.go): answer sections with an out-of-zone part under every
+// rcode (also as the answer to the resolver's own NS-address lookup), and right-id
+// messages whose question is a RELATIVE of the asked one (below / above / beside,
+// also ahead of the honest root and test. servers' replies to a question for
+// their apex); their cases have indexes >= ladderIndexBase.
 // Spoof bursts (bursts.go): 1…64 wrong-id / wrong-question / both-wrong messages
 // ahead of the real reply or instead of it, over UDP and as TCP frames; the
 // cases of the kinds added there have indexes >= extraIndexBase.
@@ -52,7 +57,13 @@ const (
 var debug = os.Getenv("C07_DEBUG") != ""
 
 // sampled: the first delivered attack of this process became an evidence sample.
-var sampled atomic.Bool
+// samplePref, when set, restricts that to one kind (a quarter of the batch
+// processes each sample a case of the two ladder kinds, so that the evidence
+// file shows them next to the older kinds).
+var (
+	sampled    atomic.Bool
+	samplePref string
+)
 
 // CaseSpec is the serialisable replay case: (seed, index) regenerate
 // everything else; the remaining fields document what was generated/observed.
@@ -90,16 +101,12 @@ func (c *CaseSpec) trigger() (string, uint16) { return c.kind().Trigger(c.Varian
 
 func genCase(r *vlib.Run, index int) *CaseSpec {
 	rng := r.RandN("case", index)
-	k := kinds[index%nBaseKinds]
-	round := index / nBaseKinds
-	if index >= extraIndexBase {
-		// kinds added after the first registrations live in their own index
-		// space, so that the cases of the older kinds stay what they were
-		j := index - extraIndexBase
-		nx := len(kinds) - nBaseKinds
-		k = kinds[nBaseKinds+j%nx]
-		round = j / nx
-	}
+	// every group of kinds has its own case index space (see kindGroups), so
+	// that the cases of the older kinds stay what they were when kinds are added
+	g := groupOf(index)
+	j := index - g.Base
+	k := g.Kinds[j%len(g.Kinds)]
+	round := j / len(g.Kinds)
 	off := r.Rand("variant-offset/" + k.Name).IntN(len(k.Variants))
 	variant := k.Variants[(round+off)%len(k.Variants)]
 	needV6 := k.NeedV6 != nil && k.NeedV6(variant)
@@ -134,16 +141,42 @@ func (k *attackKind) shapeWorld(variant string, ws *WorldSpec) {
 }
 
 // extraIndexBase is the first case index of the kinds appended to the base list
-// (kinds[nBaseKinds:]).
-const extraIndexBase = 1 << 20
+// by bursts.go; ladderIndexBase that of the kinds of ladders.go.
+const (
+	extraIndexBase  = 1 << 20
+	ladderIndexBase = 2 << 20
+)
+
+// kindGroup: a slice of kinds that shares one case index space Base, Base+1, …
+type kindGroup struct {
+	Base  int
+	Kinds []*attackKind
+}
+
+// kindGroups is filled by attacks.go's init, in ascending Base order.
+var kindGroups []kindGroup
+
+func groupOf(index int) kindGroup {
+	g := kindGroups[0]
+	for _, x := range kindGroups[1:] {
+		if index >= x.Base {
+			g = x
+		}
+	}
+	return g
+}
 
 // slotIndex maps the s-th case of a run with the given number of rounds to
-// its case index.
+// its case index: rounds cases of every kind, group after group.
 func slotIndex(s, rounds int) int {
-	if nOld := rounds * nBaseKinds; s >= nOld {
-		return extraIndexBase + (s - nOld)
+	for _, g := range kindGroups {
+		if n := rounds * len(g.Kinds); s >= n {
+			s -= n
+			continue
+		}
+		return g.Base + s
 	}
-	return s
+	return kindGroups[len(kindGroups)-1].Base + s
 }
 
 type question struct {
@@ -498,6 +531,18 @@ func (cr *caseRun) triggerRound(phase string) (question, *dns.Msg) {
 	reply, from := cr.ask(q)
 	cr.judgeTrigger(phase, q, reply, from)
 	cr.dbg(phase, q, reply, from)
+	if k := cr.c.kind(); k != nil && k.Repeat != nil && phase != "attack" {
+		// the kind's own later questions (the rungs of its ladder asked again,
+		// the questions its forged messages were about): whatever shows up now
+		// comes from state
+		for _, fq := range k.Repeat(cr) {
+			fq = randFlags(cr.rng, fq.Name, fq.Type)
+			freply, ffrom := cr.ask(fq)
+			cr.r.Count("ladder_followups_judged/"+phaseClass(phase), 1)
+			cr.judgeTrigger(phase, fq, freply, ffrom)
+			cr.dbg(phase+"/followup", fq, freply, ffrom)
+		}
+	}
 	cr.sinkCheck(phase)
 	return q, reply
 }
@@ -625,7 +670,7 @@ func runCase(r *vlib.Run, c *CaseSpec) {
 		}
 		r.Distinct(c.Kind + "|" + c.Variant + "|" + c.World.Mode + "|" + c.Target + "|" + strconv.Itoa(c.World.QMin))
 		r.DistinctIn("kind_variant", c.Kind+"|"+c.Variant)
-		if sampled.CompareAndSwap(false, true) {
+		if (samplePref == "" || samplePref == c.Kind) && sampled.CompareAndSwap(false, true) {
 			// one real case per process (the parent keeps the first six): the
 			// attack script as executed, the client question and what came back
 			var up []string
@@ -643,6 +688,15 @@ func runCase(r *vlib.Run, c *CaseSpec) {
 				"client_reply":                   summarize(attackReply),
 				"upstream_packets_during_attack": up,
 				"sink_packets":                   len(w.u.Log.SinkHits(cr.started)),
+			}
+			if len(w.ladder) > 0 {
+				// ladder kinds: every rung (question, adversarial message) and the
+				// client's reply to it
+				var rungs []string
+				for _, g := range w.ladder {
+					rungs = append(rungs, g.String()+" -> "+summarize(g.reply))
+				}
+				sample["ladder_rungs"] = rungs
 			}
 		}
 	}
@@ -680,7 +734,7 @@ const rule = "distinct_nontrivial = distinct (attack kind, variant, DNSSEC mode,
 
 func main() {
 	r := vlib.Start("C07", "exploration")
-	r.Assume("authority map: root/test./victim.test. (deep worlds: also corp.test./partner.test.) servers are honest and never tampered with; only the server(s) of evil.test. (deep worlds: also of a.b.corp.test., delegated to them by corp.test.) misbehave; every record they emit for a name outside their zones and every wrong-id/wrong-question datagram carries an evil marker")
+	r.Assume("authority map: root/test./victim.test. (deep worlds: also corp.test./partner.test.) servers are honest and never tampered with; only the server(s) of evil.test. (deep worlds: also of a.b.corp.test., delegated to them by corp.test.) misbehave (kind spoof-question-relative additionally sends forged right-id/wrong-question messages AHEAD of the unchanged honest replies of the root and test. servers to a question for their apex — the off-path spoofer of the statement); every record they emit for a name outside their zones and every wrong-id/wrong-question datagram carries an evil marker")
 	r.Assume("gates only delay a reply at a server's socket (the attacker's own NS-address answer; in deep-cached-jump the honest corp.test. server's honest referral) until the harness has run a second client query; no verdict depends on how long that takes")
 	r.Assume("virtual time = RStack.Advance (cache entries + delegation cache shifted together at a quiescent point); the resolver's glue address caches are not aged")
 	r.Assume("loopback:53 and local-interface addresses are remapped to the sink by the harness dial hook so that contacting them is observable")
@@ -732,6 +786,12 @@ func main() {
 	if b := os.Getenv("C07_BATCH"); b != "" {
 		var lo, hi, step int
 		fmt.Sscanf(b, "%d:%d:%d", &lo, &hi, &step)
+		switch lo % 4 {
+		case 2:
+			samplePref = "answer-rcode-ladder"
+		case 3:
+			samplePref = "spoof-question-relative"
+		}
 		for i := lo; i < hi; i += step {
 			runCase(r, genCase(r, slotIndex(i, rounds)))
 		}
@@ -818,6 +878,36 @@ func main() {
 	r.Require("spoof_burst_rungs/udp/question/real", int64(rounds/3))
 	r.Require("spoof_burst_rungs/tcp/id/real", int64(rounds/3))
 	r.Require("spoof_burst_rungs/tcp/id/silent", int64(rounds/3))
+	// answer sections with an out-of-zone part under every rcode (NOERROR and seven
+	// failure rcodes), every shape; the later questions of the ladders
+	for _, rc := range ladderRcodes {
+		r.Require("answer_rcode_rungs/"+rcodeName(rc), int64(rounds/2))
+	}
+	r.Require("answer_failure_rcode_rungs", int64(rounds*(len(ladderRcodes)-1)/2))
+	for _, k := range kinds {
+		if k.Name == "answer-rcode-ladder" {
+			for _, v := range k.Variants {
+				r.Require("answer_rcode_rungs_by_shape/"+v, int64((rounds+len(k.Variants)-1)/len(k.Variants)))
+			}
+		}
+	}
+	r.Require("answer_rcode_nsaddr_rungs", int64(rounds))
+	r.Require("answer_rcode_nsaddr_rungs/nxdomain", int64(rounds/3))
+	r.Require("answer_rcode_nsaddr_rungs/servfail", int64(rounds/3))
+	// right-id messages whose question is a relative of the asked one: every
+	// relation, ahead of the attacker's and of honest apex servers' replies, on
+	// both transports
+	for _, sh := range relativeShapes {
+		r.Require("spoof_relative_rungs/"+sh, int64(rounds/2))
+	}
+	r.Require("spoof_relative_rungs/asked-root/victim", int64(rounds/2))
+	r.Require("spoof_relative_rungs/asked-tld/victim-apex", int64(rounds/2))
+	r.Require("spoof_relative_rungs_via/root", int64(rounds/2))
+	r.Require("spoof_relative_rungs_via/tld", int64(rounds/2))
+	r.Require("spoof_relative_rungs_by_transport/udp", int64(rounds/3*len(relativeShapes)))
+	r.Require("spoof_relative_rungs_by_transport/tcp", int64(rounds/3*len(relativeShapes)))
+	r.Require("ladder_followups_judged/now", int64(rounds*(len(ladderRcodes)+len(relativeShapes))))
+	r.Require("ladder_followups_judged/later", int64(rounds*(len(ladderRcodes)+len(relativeShapes))))
 	// this host's own interface addresses as glue / resolved NS addresses
 	if len(allLocalInterfaceAddrs()) > 0 {
 		r.Require("local_interface_glue_cases", 1)
